@@ -405,23 +405,6 @@ def do_CT(spec):
     ct, skip, samples = _build_ct(spec)
     if ct is None:
         return skip
-    try:
-        tr = None
-        via = "done"
-        if via == "class":
-            cls = type(T.HasTraits)("Holder", (T.HasTraits,), {"q": tr, "v": T.Int(), "d": T.Instance(T.HasTraits),
-                                                                 "vals": T.List([1, 2]),
-                                                                 "__module__": __name__})
-            obj = cls()
-            ct = obj.trait("q")
-            if ct is None:
-                return {"skip": "no trait"}
-        else:
-            from traits.ctrait import CTrait
-            from traits.trait_converters import as_ctrait
-            ct = tr if isinstance(tr, CTrait) else as_ctrait(tr) if not isinstance(tr, type) else as_ctrait(tr())
-    except Exception as e:
-        return {"skip": "cannot build: %s" % exc_name(e)}
     stage = "getstate"
     try:
         if how == "getstate":
